@@ -4,6 +4,7 @@
   (how `sigma_xsec` is assembled from per-species components) at the carrier ℝ.
 -/
 import Proofs.C03
+import Proofs.C03Mix
 
 open Finset
 
@@ -138,5 +139,87 @@ theorem order_within_cutoff (n nwn : ℕ) (path dens : ℕ → ℝ) (l : ℕ) (h
 
 example := order_within_cutoff 2 2 (fun _ => (1 : ℝ)) (fun _ => (1 : ℝ)) 0 (fun _ _ => by norm_num)
   (fun _ _ => by norm_num) nv nv.reverse nv_nonneg (List.reverse_perm nv).symm 0 (by norm_num)
+
+/-! ### which abundance a component is weighted with: the look-up rule, and chemistries with freed molecules -/
+
+open Taurex.MixLookup in
+/-- `get_gas_mix_profile(name)` hands out the row of the ACTIVE table when the name is among the active gases, otherwise the
+    row of the INACTIVE table (the row at `names.index(name)`: the first pair with that name) -/
+theorem gasMix_rule (active inactive : List (String × (ℕ → ℝ))) (name : String) :
+    (∀ pre post r, active = pre ++ (name, r) :: post → hasName pre name = false →
+      gasMix active inactive name = some r) ∧
+    (hasName active name = false → gasMix active inactive name = rowOf inactive name) := by
+  constructor
+  · intro pre post r h hpre
+    have h0 : pre.find? (fun p => p.1 == name) = none := by
+      rw [List.find?_eq_none]
+      intro x hx hxn
+      unfold hasName at hpre
+      rw [List.any_eq_true.2 ⟨x, hx, hxn⟩] at hpre
+      exact Bool.noConfusion hpre
+    simp [gasMix, rowOf, h, List.find?_append, h0]
+  · intro hA
+    have h0 : active.find? (fun p => p.1 == name) = none := by
+      rw [List.find?_eq_none]
+      intro x hx hxn
+      unfold hasName at hA
+      rw [List.any_eq_true.2 ⟨x, hx, hxn⟩] at hA
+      exact Bool.noConfusion hA
+    simp [gasMix, rowOf, h0]
+
+open Taurex.MixLookup in
+example : gasMix [("H2O", fun _ => (1 / 100 : ℝ)), ("CH4", fun _ => 2 / 100)] [("H2", fun _ => 97 / 100)] "CH4"
+    = some (fun _ => 2 / 100) :=
+  (gasMix_rule _ _ "CH4").1 [("H2O", fun _ => 1 / 100)] [] _ rfl (by decide)
+
+open Taurex.MixLookup in
+/-- in a chemistry wrapped with `MakeFreeMixin`, a molecule of the wrapped chemistry that has been replaced by a free gas is
+    looked up with the FREE gas's profile, renormalised by the column sum of the freed atmosphere — not with the row of the
+    wrapped chemistry's own table; so its absorption component is `cross-section x (free abundance / column sum)`.
+    Stated for a freed absorbing molecule (first part) and a freed non-absorbing one (second part). -/
+theorem freed_weight (active inactive : List (String × (ℕ → ℝ))) (free : List (Free ℝ)) (f : Free ℝ)
+    (hf : free.find? (fun g => g.mol == f.mol) = some f) :
+    (hasName active f.mol = true →
+      gasMix (freedActive active inactive free) (freedInactive active inactive free) f.mol
+        = some (fun l => f.prof l / normFactor active inactive free l)) ∧
+    (hasName active f.mol = false → hasName inactive f.mol = true →
+      gasMix (freedActive active inactive free) (freedInactive active inactive free) f.mol
+        = some (fun l => f.prof l / normFactor active inactive free l)) := by
+  constructor
+  · intro hA
+    unfold gasMix freedActive
+    rw [rowOf_normalised, rawActive_freed active inactive free f hf hA]
+    rfl
+  · intro hA hI
+    unfold gasMix freedActive freedInactive
+    rw [rowOf_normalised, rawActive_none active inactive free f.mol hA hI, rowOf_normalised,
+      rawInactive_freed active inactive free f hf hI]
+    rfl
+
+open Taurex.MixLookup Taurex.Sigma in
+/-- … and the absorption component of the freed molecule is its cross-section weighted with that renormalised free abundance,
+    hence proportional to it -/
+theorem freed_component (active inactive : List (String × (ℕ → ℝ))) (free : List (Free ℝ)) (f : Free ℝ)
+    (hf : free.find? (fun g => g.mol == f.mol) = some f) (hA : hasName active f.mol = true) (xsec : ℕ → ℕ → ℝ) :
+    ∃ mix, gasMix (freedActive active inactive free) (freedInactive active inactive free) f.mol = some mix ∧
+      ∀ l wn, compAbs xsec mix l wn = xsec l wn * (f.prof l / normFactor active inactive free l) :=
+  ⟨_, (freed_weight active inactive free f hf).1 hA, fun l wn => by simp [compAbs]⟩
+
+-- non-vacuity: a file chemistry H2O (absorbing, 1e-5) / H2 / He in which H2O is replaced by a free gas at 1e-2: the
+-- component weight is 1e-2 / (1e-2 + 0.85 + 0.15), not the file's 1e-5
+open Taurex.MixLookup in
+example : gasMix (freedActive [("H2O", fun _ => (1 / 100000 : ℝ))] [("H2", fun _ => 85 / 100), ("He", fun _ => 15 / 100)]
+      [⟨"H2O", fun _ => 1 / 100, true⟩])
+    (freedInactive [("H2O", fun _ => (1 / 100000 : ℝ))] [("H2", fun _ => 85 / 100), ("He", fun _ => 15 / 100)]
+      [⟨"H2O", fun _ => 1 / 100, true⟩]) "H2O"
+    = some (fun l => (1 / 100 : ℝ) / normFactor [("H2O", fun _ => (1 / 100000 : ℝ))]
+        [("H2", fun _ => 85 / 100), ("He", fun _ => 15 / 100)] [⟨"H2O", fun _ => 1 / 100, true⟩] l) :=
+  (freed_weight _ _ _ ⟨"H2O", fun _ => 1 / 100, true⟩ (by simp [List.find?])).1 (by decide)
+
+open Taurex.MixLookup in
+example : normFactor [("H2O", fun _ => (1 / 100000 : ℝ))] [("H2", fun _ => 85 / 100), ("He", fun _ => 15 / 100)]
+    [⟨"H2O", fun _ => 1 / 100, true⟩] 0 = 1 / 100 + 85 / 100 + 15 / 100 := by
+  simp [normFactor, colSum, rawActive, rawInactive, replaceRows, newGases, hasName, List.find?]
+  norm_num
 
 end Taurex.C03
